@@ -29,6 +29,9 @@ package ecs
 //@   ensures  found: result == old(tidsHas(t, id))
 //@   ensures  removed: forall j tableID :: tidsHas(t, j) == (old(tidsHas(t, j)) && j != id)
 //@   ensures  count: (result ==> len(t.tables) == old(len(t.tables)) - 1) && (!result ==> len(t.tables) == old(len(t.tables)))
+//@   ensures  samearray: len(t.tables) > 0 ==> __same(&t.tables[0], old(&t.tables[0]))
+//@   ensures  samemap: __same(t.indices, old(t.indices))
+//@   modifies t.tables, t.tables[*], t.indices[*]
 
 //@ func (*tableIDs).Clear
 //@   serves C04 C05 C16
